@@ -29,7 +29,7 @@ import tatsu  # noqa: E402
 from tatsu.objectmodel import BaseNode, ModelBuilderSemantics, Node, synthesize, tatsudataclass  # noqa: E402
 from tatsu.util.asjson import AsJSONMixin  # noqa: E402
 from tatsu.util.strtools import mangle  # noqa: E402
-from tatsu.walkers import BreadthFirstWalker, DepthFirstWalker, PostOrderDepthFirstWalker  # noqa: E402
+from tatsu.walkers import BreadthFirstWalker, DepthFirstWalker, NodeWalker, PostOrderDepthFirstWalker  # noqa: E402
 
 _seq = itertools.count()
 RUN = f'V7{abs(hash(str(Path(__file__)))) % 97}'   # prefix of every class name this check declares
@@ -664,6 +664,8 @@ def run_grammars(chk: Check, mr: ModelRun):
     tie_batch: list = []
     build_reqs: list = []
     ncases = 0
+    wbad = 0
+    d1_batch: list = []
     risky_plan = []
     for cls, pool in RISKY_ATTRS.items():
         for nm in pool:
@@ -714,6 +716,7 @@ def run_grammars(chk: Check, mr: ModelRun):
         if risky:
             texts = FIXED_SENTENCES + texts[:3]
         reported = set()
+        wpool: list = []
         for text in texts:
             ncases += 1
             try:
@@ -761,6 +764,7 @@ def run_grammars(chk: Check, mr: ModelRun):
                 for top in uniq(tops)[:2]:
                     if isinstance(top, Node):
                         tie_tree(chk, top, f'parse of {text!r}', tie_batch)
+                        wpool.append((text, top, 'synthesized'))
             # (5) the generated model module gives the same tree
             if genmod is not None:
                 try:
@@ -774,6 +778,10 @@ def run_grammars(chk: Check, mr: ModelRun):
                           'synthesized': json.dumps(strip_mro(c2), default=str)[:1200]})
                 for f in check_navigation(m3, 'generated'):
                     once(f'genmodel-nav-{f}', f'navigation of the generated-class tree: {f}')
+                if not risky:
+                    tops = []
+                    brute_nodes(m3, tops)
+                    wpool += [(text, top, 'generated') for top in uniq(tops)[:1] if isinstance(top, Node)]
                 if not risky and rng.random() < 0.5:
                     tops = []
                     brute_nodes(m3, tops)
@@ -785,6 +793,10 @@ def run_grammars(chk: Check, mr: ModelRun):
                 br = build_request(traced, plain, m2, gc)
                 if br:
                     build_reqs.append(br)
+        if not risky and wpool:
+            # the largest trees of both class families
+            wpool.sort(key=lambda p: -len(node_orders(p[1])['dfs']))
+            wbad += run_dispatch(chk, gc, wpool[:5], 3 if chk.quick else 8, d1_batch)
         if gi == 0:
             chk.sample({'grammar': gc.text, 'input': texts[-1] if texts else ''})
         if risky and groups:
@@ -793,9 +805,13 @@ def run_grammars(chk: Check, mr: ModelRun):
             chk.violation(sig, f'{risky[0]} named {risky[2]!r} ({risky[1]}): ' + '; '.join(groups[g][0] for g in sorted(groups)),
                           dict(first[1], failing_checks=sorted(groups)))
     chk.obligation('O1: model parse vs plain parse on generated annotated grammars', 'oracle',
-                   not any(not v['signature'].startswith('corr:') for v in chk.violations))
+                   not any(not v['signature'].startswith(('corr:', 'walk-dispatch:')) for v in chk.violations))
+    chk.obligation('W1: walker class / use histories: handler of every node and traversal vs the dispatch oracle',
+                   'oracle', wbad == 0)
     flush_ties(chk, mr, tie_batch, 'N2')
     flush_build(chk, mr, build_reqs)
+    flush_dispatch(chk, mr, d1_batch)
+    witness_dispatch(chk)
 
 
 # ------------------------------------------------------------------ B1: derivations vs build / plain / erase
@@ -955,6 +971,500 @@ def run_registry(chk: Check, mr: ModelRun):
     if got != [a, c]:
         chk.violation('bases:name-redeclared-first-synthesis-wins', f'{a}::{c} after {a}::{b} has chain {got}',
                       {'oracle': 'declared base classes', 'history': [[a, b], [a, c]], 'got': got})
+
+
+# ------------------------------------------------------------------ W1: walker classes, dispatch and use histories
+# A history is a list of steps over ONE family of trees (the model parses of one grammar, synthesized and generated
+# classes):  ('def', parent, mixin, {method name: recurse})  declares walker class number <position among defs> below a
+# stock walker ('dfs' 'post' 'bfs' 'plain') or below an earlier class of the history (int);  ('use', class, tree, again)
+# instantiates the class and walks the tree (twice with the same instance when `again`).  Classes are declared at the
+# moment their step runs, i.e. possibly after their parents have been used.
+# Oracle (independent of tatsu): the handler of a node is a function of (walker class, node class) only - the first
+# class in the node's MRO for which the walker class has walk_<Name> / walk__<snake> / walk_<snake> (in this order),
+# else the first of _walk__default _walk_default walk__default walk_default, else none - whatever was declared or
+# walked before; the traversal orders are pre-order / post-order / level order over children() whoever handles.
+STOCK = {'dfs': DepthFirstWalker, 'post': PostOrderDepthFirstWalker, 'bfs': BreadthFirstWalker}
+DEFAULT_METHODS = ['_walk__default', '_walk_default', 'walk__default', 'walk_default']
+
+
+def snake(name: str) -> str:
+    """CamelCase -> snake_case written from the documentation (own implementation, not tatsu's pythonize_name)"""
+    out = []
+    for i, ch in enumerate(name):
+        if i and ch.isupper():
+            prev = name[i - 1]
+            nxt = name[i + 1] if i + 1 < len(name) else ''
+            if prev.islower() or prev.isdigit() or (nxt.islower() and prev != '_'):
+                out.append('_')
+        out.append(ch.lower())
+    return ''.join(out)
+
+
+def method_forms(clsname: str) -> list[str]:
+    s = snake(clsname)
+    return ['walk_' + clsname, 'walk__' + s, 'walk_' + s.lstrip('_')]
+
+
+def node_orders(root):
+    """pre-order, post-order, level order over children() (own traversals)"""
+    pre, post = [], []
+
+    def go(n):
+        pre.append(n)
+        for c in n.children():
+            go(c)
+        post.append(n)
+    go(root)
+    bfs, queue = [], [root]
+    while queue:
+        n = queue.pop(0)
+        bfs.append(n)
+        queue.extend(n.children())
+    return {'dfs': pre, 'post': post, 'bfs': bfs}
+
+
+class History:
+    """runs a history with freshly declared walker classes and compares every use with the oracle"""
+
+    def __init__(self, steps, trees, oracle=True):
+        self.steps = steps
+        self.trees = trees
+        self.oracle = oracle          # False: only record the lookups for D1 (methods named after any class of the MRO)
+        self.log: list = []
+        self.classes: list = []       # (class, kind, own methods)
+        self.failure = None           # (what, shape, detail) of the first failing use
+        self.d1: list = []            # the history as the model sees it: declarations and lookups with real outcomes
+        self.d1_valid = True
+        self.visits: list = []
+
+    def handler(self, owner, mname, recurse):
+        log = self.log
+
+        def h(self_, node, *args, **kwargs):
+            log.append((owner, mname, node, kwargs.get('children')))
+            if recurse:
+                self_.walk_children(node)
+            return node
+        h.__name__ = mname
+        return h
+
+    def declare(self, parent, mixin, methods):
+        idx = len(self.classes)
+        if isinstance(parent, int):
+            base, kind, _ = self.classes[parent]
+        else:
+            base, kind = (STOCK[parent] if parent in STOCK else NodeWalker), parent
+        ns = {m: self.handler(idx, m, rec and kind == 'plain') for m, rec in methods.items()}
+        name = f'{RUN}W{next(_seq)}'
+        if mixin:
+            mx = type(name + 'Mixin', (), ns)
+            cls = types.new_class(name, (mx, base))
+        else:
+            cls = types.new_class(name, (base,), exec_body=lambda d: d.update(ns))
+        self.classes.append((cls, kind, dict(methods)))
+        return cls
+
+    # -- oracle
+    def methods_of(self, idx):
+        """method name -> (declaring class of the history, recurse): nearest declaration along the walker's ancestry"""
+        out: dict = {}
+        chain = []
+        i = idx
+        while isinstance(i, int):
+            chain.append(i)
+            i = self.parents[i]
+        for j in reversed(chain):
+            for m, rec in self.classes[j][2].items():
+                out[m] = (j, rec and self.classes[j][1] == 'plain')
+        return out
+
+    def resolve(self, methods, node):
+        for c in type(node).__mro__:
+            for m in method_forms(c.__name__):
+                if m in methods:
+                    return m, methods[m]
+        for m in DEFAULT_METHODS:
+            if m in methods:
+                return m, methods[m]
+        return None
+
+    def expected(self, idx, root):
+        methods = self.methods_of(idx)
+        kind = self.classes[idx][1]
+        out = []
+        if kind == 'plain':
+            self.visits = []
+
+            def sim(n):
+                self.visits.append(n)
+                r = self.resolve(methods, n)
+                if r is None:
+                    return
+                out.append((r[1][0], r[0], n, None))
+                if r[1][1]:
+                    for c in n.children():
+                        sim(c)
+            sim(root)
+            return out, root
+        orders = node_orders(root)
+        self.visits = list(orders[kind])
+        for n in orders[kind]:
+            r = self.resolve(methods, n)
+            if r is not None:
+                # the post-order walker hands every handler the results for the node's children (here: the children)
+                out.append((r[1][0], r[0], n, tuple(n.children()) if kind == 'post' else None))
+        # the post-order walk yields the result for the root only; the others one result per node in visit order
+        return out, ((root,) if kind == 'post' else tuple(orders[kind]))
+
+    def run(self):
+        self.parents = []
+        ndef = 0
+        for step in self.steps:
+            if step[0] == 'def':
+                _, parent, mixin, methods = step
+                self.parents.append(parent)
+                self.declare(parent, mixin, methods)
+                self.d1.append(('decl', ndef))
+                ndef += 1
+                continue
+            _, idx, ti, again = step
+            cls, kind, _ = self.classes[idx]
+            root = self.trees[ti]
+            want, want_result = self.expected(idx, root)
+            w = cls()
+            for rnd in range(2 if again else 1):
+                del self.log[:]
+                try:
+                    result = w.walk(root)
+                except Exception as e:                      # noqa: BLE001
+                    self.failure = (f'raises-{type(e).__name__}', kind, {'step': list(step), 'error': str(e)[:200]})
+                    return self
+                got = list(self.log)
+                # D1: the lookups of this walk (one per visited node, in visit order) with the real outcome
+                by_node = {}
+                for g in got:
+                    by_node.setdefault(id(g[2]), []).append(g[1])
+                if any(len(v) > 1 for v in by_node.values()):
+                    self.d1_valid = False
+                self.d1.append(('look', idx, ti, [(type(n).__name__, by_node.get(id(n), [None])[0]) for n in self.visits]))
+                bad = self.compare(kind, got, want, result, want_result) if self.oracle else None
+                if bad:
+                    shape, detail = bad
+                    detail.update({'step': list(step), 'walker_kind': kind, 'second_walk_of_instance': rnd == 1})
+                    self.failure = (shape, kind, detail)
+                    return self
+        return self
+
+    def compare(self, kind, got, want, result, want_result):
+        def ids(nodes):
+            return [id(n) for n in nodes]
+        gn, wn = ids(g[2] for g in got), ids(w[2] for w in want)
+        if gn != wn:
+            if sorted(gn) == sorted(wn):
+                return 'order', {'got_classes': [type(g[2]).__name__ for g in got], 'want_classes': [type(w[2]).__name__ for w in want]}
+            what = 'handles-too-few' if len(gn) < len(wn) else 'handles-too-many'
+            if set(wn) - set(gn) and set(gn) - set(wn):
+                what = 'handles-other-nodes'
+            return what, {'got_classes': [type(g[2]).__name__ for g in got], 'want_classes': [type(w[2]).__name__ for w in want]}
+        for g, w in zip(got, want):
+            if (g[0], g[1]) != (w[0], w[1]):
+                rel = 'same-method-name-of-another-class' if g[1] == w[1] else 'another-method-name'
+                if g[1] in DEFAULT_METHODS:
+                    rel += '-got-default'
+                if w[1] in DEFAULT_METHODS:
+                    rel += '-want-default'
+                return 'wrong-handler:' + rel, {'node_class': type(g[2]).__name__, 'node_mro': [c.__name__ for c in type(g[2]).__mro__],
+                                                'got': [g[0], g[1]], 'want': [w[0], w[1]]}
+        if kind == 'post':
+            for g, w in zip(got, want):
+                if g[3] is None or ids(g[3]) != ids(w[3]):
+                    return 'post-children-argument', {'node_class': type(g[2]).__name__}
+        if kind == 'plain':
+            if result is not want_result:
+                return 'result', {}
+        elif not isinstance(result, tuple) or ids(result) != ids(want_result):
+            return 'result', {'got_len': len(result) if isinstance(result, tuple) else None, 'want_len': len(want_result)}
+        return None
+
+
+def gen_history(rng, universe, ntrees, kinds=('dfs', 'dfs', 'post', 'bfs', 'bfs', 'plain')):
+    """universe: node class names of the trees (most derived first is not required) + Node"""
+    steps: list = []
+    defs: list = []                    # per class: (kind, method names)
+    used: set = set()
+    nsteps = rng.randint(5, 9)
+
+    def methods_for(parent_methods, kind):
+        ms: dict = {}
+        for _ in range(rng.choice([0, 1, 1, 2, 2, 3])):
+            target = rng.choice(universe)
+            forms = method_forms(target)
+            m = forms[rng.choice([0, 0, 0, 1, 1, 2])]
+            ms[m] = rng.random() < 0.8
+            if rng.random() < 0.1:     # a second spelling for the same class: the priority of the forms decides
+                ms[rng.choice(forms)] = rng.random() < 0.8
+        if parent_methods and rng.random() < 0.3:
+            ms[rng.choice(sorted(parent_methods))] = rng.random() < 0.8      # override
+        if rng.random() < 0.3:
+            ms[rng.choice(DEFAULT_METHODS)] = rng.random() < 0.8
+            if rng.random() < 0.2:
+                ms[rng.choice(DEFAULT_METHODS)] = rng.random() < 0.8
+        return ms
+
+    def inherited(i):
+        acc: set = set()
+        while isinstance(i, int):
+            acc |= set(defs[i][2])
+            i = defs[i][1]
+        return acc
+
+    for s in range(nsteps):
+        if not defs or rng.random() < 0.4:
+            if defs and rng.random() < 0.65:
+                # prefer a parent that has already been used: the subclass is born after its parent worked
+                cands = [i for i in range(len(defs)) if i in used] or list(range(len(defs)))
+                parent = rng.choice(cands)
+                kind = defs[parent][0]
+                pm = inherited(parent)
+            else:
+                parent = kind = rng.choice(kinds)
+                pm = set()
+            ms = methods_for(pm, kind)
+            if not isinstance(parent, int) and not ms:
+                ms = {'walk_Node': True}
+            steps.append(('def', parent, rng.random() < 0.15, ms))
+            defs.append((kind, parent, ms))
+        else:
+            idx = rng.choice([len(defs) - 1, rng.randrange(len(defs))])
+            steps.append(('use', idx, rng.randrange(ntrees), rng.random() < 0.2))
+            used.add(idx)
+    if not any(s[0] == 'use' for s in steps):
+        steps.append(('use', len(defs) - 1, 0, False))
+    return steps
+
+
+def shrink_history(steps, trees, shape):
+    """greedy: drop steps / methods while the same failure shape remains"""
+    def fails(st):
+        try:
+            f = History(st, trees).run().failure
+        except Exception:                                   # noqa: BLE001  (invalid history after a removal)
+            return False
+        return f is not None and f[0] == shape
+
+    def drop(st, i):
+        """steps without step i; class indices above a removed def shift down; None when i is still referenced"""
+        if st[i][0] == 'use':
+            return st[:i] + st[i + 1:]
+        k = sum(1 for s in st[:i] if s[0] == 'def')
+        out = []
+        for j, s in enumerate(st):
+            if j == i:
+                continue
+            if s[0] == 'def':
+                p = s[1]
+                if isinstance(p, int):
+                    if p == k:
+                        return None
+                    p = p - 1 if p > k else p
+                out.append(('def', p, s[2], s[3]))
+            else:
+                if s[1] == k:
+                    return None
+                out.append(('use', s[1] - 1 if s[1] > k else s[1], s[2], s[3]))
+        return out
+    changed = True
+    while changed:
+        changed = False
+        for i in range(len(steps) - 1, -1, -1):
+            cand = drop(steps, i)
+            if cand and fails(cand):
+                steps, changed = cand, True
+                break
+        else:
+            for i, s in enumerate(steps):
+                if s[0] == 'use' and s[3]:
+                    cand = steps[:i] + [('use', s[1], s[2], False)] + steps[i + 1:]
+                    if fails(cand):
+                        steps, changed = cand, True
+                        break
+                if s[0] != 'def':
+                    continue
+                if s[2]:
+                    cand = steps[:i] + [('def', s[1], False, s[3])] + steps[i + 1:]
+                    if fails(cand):
+                        steps, changed = cand, True
+                        break
+                for m in sorted(s[3]):
+                    cand = steps[:i] + [('def', s[1], s[2], {k: v for k, v in s[3].items() if k != m})] + steps[i + 1:]
+                    if fails(cand):
+                        steps, changed = cand, True
+                        break
+                if changed:
+                    break
+    return steps
+
+
+def history_shape(steps):
+    """shape class of a (shrunk) failing history for the signature"""
+    feats = []
+    defs = [s for s in steps if s[0] == 'def']
+    seen_use: set = set()
+    k = 0
+    for s in steps:
+        if s[0] == 'use':
+            seen_use.add(s[1])
+        else:
+            if isinstance(s[1], int) and s[1] in seen_use:
+                feats.append('subclass-declared-after-parent-walked')
+            k += 1
+    if len(defs) > 1 and not feats:
+        feats.append('several-walker-classes')
+    if any(s[0] == 'def' and s[2] for s in steps):
+        feats.append('mixin')
+    if any(s[0] == 'use' and s[3] for s in steps):
+        feats.append('instance-reused')
+    if len({s[2] for s in steps if s[0] == 'use'}) > 1 or sum(1 for s in steps if s[0] == 'use') > 1:
+        feats.append('several-walks')
+    return '+'.join(sorted(set(feats))) or 'single-class-single-walk'
+
+
+def class_graph(root):
+    """class name -> names of __bases__ for every class in the MRO of every node class of the tree; None when two
+    classes share a name or a qualified name differs from the name (the cache key is __qualname__)"""
+    g: dict = {}
+    owner: dict = {}
+    for n in node_orders(root)['dfs']:
+        for c in type(n).__mro__:
+            if owner.setdefault(c.__name__, c) is not c or c.__qualname__ != c.__name__:
+                return None
+            g[c.__name__] = [b.__name__ for b in c.__bases__]
+    return g
+
+
+def dispatch_request(h: History, graphs):
+    """the history as a request to ObjModel.run_walkers and the real outcome of every lookup"""
+    from tatsu.util import pythonize_name
+    if not h.d1_valid:
+        return None
+    steps, real, used_graphs = [], [], {}
+    for st in h.d1:
+        if st[0] == 'decl':
+            steps.append(f'(decl {st[1]})')
+            continue
+        _, idx, ti, looks = st
+        if graphs[ti] is None:
+            return None
+        used_graphs[ti] = graphs[ti]
+        for cname, mname in looks:
+            steps.append(f'(look {idx} {ti} {sx(cname)})')
+            real.append(mname)
+    walkers = []
+    for i, (cls, _, _) in enumerate(h.classes):
+        ms = sorted(m for m in dir(cls) if m.startswith(('walk_', '_walk_')) and callable(getattr(cls, m, None)))
+        walkers.append(f'({i} ({" ".join(sx(m) for m in ms)}))')
+    cnames = sorted({c for g in used_graphs.values() for c in g})
+    snk = ' '.join(f'({sx(c)} {sx(pythonize_name(c))})' for c in cnames)
+    gs = ' '.join('(' + str(ti) + ' (' + ' '.join(f'({sx(c)} ({" ".join(sx(b) for b in bs)}))' for c, bs in g.items()) + '))'
+                  for ti, g in used_graphs.items())
+    return f'(dispatch 4000 ({snk}) ({" ".join(walkers)}) ({gs}) ({" ".join(steps)}))', real
+
+
+def flush_dispatch(chk: Check, mr: ModelRun, batch):
+    bad = 0
+    replies = mr.ask([b[0] for b in batch]) if batch else []
+    for (req, real, info), rep in zip(batch, replies):
+        chk.count('D1.histories')
+        chk.evaluations += 1
+        if isinstance(rep, list) and rep and rep[0] in ('error', 'timeout'):
+            bad += 1
+            chk.violation('corr:D1:model-error', f'model error {rep}', dict(info, request=req[:3000]))
+            continue
+        model = [None if r == 'none' else (vlib.sx_str(r[1]) if r[1] != [] else '<out-of-fuel>') for r in rep]
+        chk.count('D1.lookups', len(real))
+        if model != real:
+            bad += 1
+            k = next(i for i, (a, b) in enumerate(zip(model, real)) if a != b) if len(model) == len(real) else -1
+            chk.violation('corr:D1', 'walker dispatch of a declaration / walk history differs from ObjModel.run_walkers',
+                          dict(info, correspondence='D1', first_difference=k,
+                               impl=real[max(0, k - 3):k + 3], model=model[max(0, k - 3):k + 3], request=req[:4000]))
+    chk.obligation('D1: walker declaration / lookup histories: real handlers vs ObjModel.run_walkers (cache, search order)',
+                   'correspondence', bad == 0)
+
+
+def witness_dispatch(chk: Check):
+    """replay of C07_dispatch_multiple_inheritance_order: a synthesized P::Q node, walker with walk_Node and walk_BaseNode"""
+    tag = f'{RUN}X{next(_seq)}x'
+    node = ModelBuilderSemantics()._default('x', f'{tag}P::{tag}Q')
+    one = ModelBuilderSemantics()._default('x', f'{tag}R')
+    seen = []
+
+    class W(NodeWalker):
+        def walk_Node(self, n, *a, **k):
+            seen.append('walk_Node')
+
+        def walk_BaseNode(self, n, *a, **k):
+            seen.append('walk_BaseNode')
+    W().walk(node)
+    W().walk(one)
+    chk.obligation('witness replay: walk_BaseNode before walk_Node for a synthesized P::Q node, walk_Node for a plain P '
+                   '(C07_dispatch_multiple_inheritance_order)', 'witness', seen == ['walk_BaseNode', 'walk_Node'], str(seen))
+
+
+def run_dispatch(chk: Check, gc, wpool, nhist, d1_batch):
+    """wpool: [(text, root, family)] model trees of the grammar gc (synthesized and generated classes)"""
+    rng = chk.rng
+    trees = [p[1] for p in wpool]
+    names_: list = []
+    for t in trees:
+        for n in node_orders(t)['dfs']:
+            for c in type(n).__mro__:
+                if c is Node:
+                    break
+                if c.__name__ not in names_ and c.__name__ not in ('ModelBase', 'SynthNode'):
+                    names_.append(c.__name__)
+    universe = sorted(names_) + ['Node', 'Node']
+    graphs = [class_graph(t) for t in trees]
+    if rng.random() < 0.3:
+        universe.append('object')
+    # every class of the MROs (BaseNode, SynthNode, ModelBase, JSONBase, AsJSONMixin, object ...): for these the order is
+    # the code's own stack walk, checked against ObjModel.search only (D1), not against the nearest-first oracle
+    wide = sorted({c for g in graphs if g for c in g})
+    bad = 0
+    for hi in range(nhist + 1):
+        if hi == nhist:
+            if not wide:
+                break
+            steps = gen_history(rng, wide, len(trees), kinds=('dfs', 'post', 'bfs'))
+            h = History(steps, trees, oracle=False).run()
+            chk.count('D1.histories-over-all-mro-classes')
+        else:
+            steps = gen_history(rng, universe, len(trees))
+            h = History(steps, trees).run()
+        dr = dispatch_request(h, graphs)
+        if dr:
+            d1_batch.append((dr[0], dr[1], {'grammar': gc.text, 'inputs': [p[0] for p in wpool],
+                                            'tree_families': [p[2] for p in wpool], 'history': [list(s) for s in steps]}))
+        else:
+            chk.count('D1.skipped')
+        chk.case('hist:' + gc.text + json.dumps(steps) + '|'.join(p[0] for p in wpool),
+                 nontrivial=sum(1 for s in steps if s[0] == 'use') > 0 and sum(1 for s in steps if s[0] == 'def') > 1)
+        chk.count('W1.histories')
+        chk.count('W1.walks', sum(1 for s in steps if s[0] == 'use'))
+        for s in steps:
+            if s[0] == 'def':
+                chk.count('W1.classes.' + (s[1] if isinstance(s[1], str) else 'derived'))
+        if h.failure:
+            bad += 1
+            shape = h.failure[0]
+            small = shrink_history(list(steps), trees, shape)
+            f = History(small, trees).run().failure or h.failure
+            chk.violation(f'walk-dispatch:{f[1]}:{f[0]}:{history_shape(small)}',
+                          f'walker history: {f[0]} ({history_shape(small)})',
+                          {'oracle': 'W1 walker dispatch / traversal histories', 'grammar': gc.text,
+                           'inputs': [p[0] for p in wpool], 'tree_families': [p[2] for p in wpool],
+                           'history': [list(s) for s in small], 'detail': f[2], 'unshrunk_history': [list(s) for s in steps]})
+    return bad
 
 
 # ------------------------------------------------------------------ T1 constants
